@@ -678,6 +678,12 @@ PROPS["C10"]["rule"] += (" Through the public API (c10l2): real connections whos
     "255 / 256 / 65535, open_channel(None), Channel::close of a random open channel - judged by the same model and the "
     "same oracle as the ChannelSlots cases.")
 PROPS["C10"]["trusted_base"] = PROPS["C10"]["trusted_base"] + L2_TRUSTED
+# segmentation end to end: the byte stream of a real connection pushed in pieces (c03l2) under C06 too
+PROPS["C06"]["check_mods"].append("C03l2")
+PROPS["C06"]["drivers"].append({"name": "c03l2", "n_quick": 16, "n_thorough": 400, "timeout": 3000})
+PROPS["C06"]["rule"] += (" End to end (c03l2, see C03): deliveries to public consumers with the byte stream pushed in "
+    "pieces of 1-9 / 1-200 / up to 70000 bytes: what the consumers receive does not depend on the segmentation.")
+PROPS["C06"]["trusted_base"] = PROPS["C06"]["trusted_base"] + L2_TRUSTED
 # a silent server while the connection is closing (seed C05d): the heartbeat scenarios of the c05 generator
 PROPS["C17"]["check_mods"].append("C05")
 PROPS["C17"]["drivers"].append({"name": "c05core", "n_quick": 160, "n_thorough": 2000, "timeout": 3000})
